@@ -9,7 +9,7 @@ VARIABLES st, P, sc, left, extra
 vars == <<st, P, sc, left, extra>>
 
 N == Len(P.clean)
-CcOf(n) == CASE P.proto = "T4" -> (IF n % 2 = 1 THEN "I" ELSE "R")
+CcOf(n) == CASE P.proto = "T4" -> (IF n % 3 = 1 THEN "I" ELSE IF n % 3 = 2 THEN "R" ELSE "P")
              [] P.proto = "T2" /\ n = 2 /\ N >= 3 -> "ssel2"
              [] OTHER -> "std"
 Docs == {{}, {"None"}, {"False"}, {"any"}}
@@ -59,7 +59,7 @@ Done == st.ph = "done" /\ UNCHANGED vars
 
 \* ---- rule breaking client (witnesses only) ---------------------------------------------------------
 BResend == st.ph = "idle" /\ st.pos >= 1 /\ ~st.dirty /\ st' = DoSend(st, P, st.cur, st.cc)
-BOver == st.ph = "idle" /\ st.justGave /\ st' = DoSend(st, P, st.cur, st.cc)
+BOver == st.ph = "faulted" /\ st' = [DoSend(st, P, st.cur, st.cc) EXCEPT !.att = 4]     \* a fourth attempt
 BNoRetry == st.ph = "faulted" /\ st' = DoRet([st EXCEPT !.gave = 1, !.lastGive = sc.k], P, [kind |-> "tagerr", errno |-> ErrnoOf(sc.k), val |-> "-"])
 BRaw == st.ph = "idle" /\ st.gave > 0 /\ st' = DoRet(st, P, [kind |-> "raw", errno |-> 0, val |-> "TimeoutError"])
 BWrongErrno == st.ph = "idle" /\ st.gave > 0 /\ st' = DoRet(st, P, [kind |-> "tagerr", errno |-> ErrnoOf(st.lastGive) - 1, val |-> "-"])
